@@ -244,3 +244,72 @@ func VH_C03_norowid_composite() {
 	}
 	sdb.VerifReach("end")
 }
+
+// C12 on WITHOUT ROWID tables: the k-th page read fails (k symbolic, one-shot)
+// during Select, PKSelect, IndexedSelect or IndexedSelectEq — the secondary
+// index paths look every row up in the table b-tree from inside the index
+// scan's callback, so a failure there has to travel out through two layers.
+//verif:prop C12
+//verif:shards 4
+//verif:bounds the WITHOUT ROWID database of VH_C02_norowid (3 rows, 6x6 orders, leaf or interior+2 leaves for table and index); operations Select, PKSelect, IndexedSelect, IndexedSelectEq (full key or empty key); failing page read k = any ordinal
+func VH_C12_norowid_fault() {
+	op := sdb.VerifShard(4)
+	d := vhBuildNoRowid()
+	h, err := d.f.Open()
+	sdb.VerifNoErr(err, "valid file opens")
+	db := &DB{db: h}
+	k := sdb.VerifInt()
+	sdb.VerifAssume(k >= 1)
+	base := d.f.Pager.Reads
+	d.f.Pager.FailAt = base + k
+	var got []Row
+	cb := func(r Row) { got = append(got, r) }
+	var full []vhWRow
+	switch op {
+	case 0:
+		err = db.Select("w", cb, "a", "b", "c")
+		for _, i := range d.pkOrd {
+			full = append(full, d.rows[i])
+		}
+	case 1:
+		kb := sdb.VerifInt64()
+		err = db.PKSelect("w", Key{kb}, cb, "a", "b", "c")
+		for _, i := range d.pkOrd {
+			if d.rows[i].b == kb {
+				full = append(full, d.rows[i])
+			}
+		}
+	case 2:
+		err = db.IndexedSelect("w", "wi", cb, "a", "b", "c")
+		for _, i := range d.idxOrd {
+			full = append(full, d.rows[i])
+		}
+	case 3:
+		var key Key
+		kc := sdb.VerifInt64()
+		all := sdb.VerifBool()
+		if !all {
+			key = Key{kc}
+		}
+		err = db.IndexedSelectEq("w", "wi", key, cb, "a", "b", "c")
+		for _, i := range d.idxOrd {
+			if all || d.rows[i].c == kc {
+				full = append(full, d.rows[i])
+			}
+		}
+	}
+	if d.f.Pager.Reads-base >= k {
+		sdb.VerifAssert(err != nil, "a failed page read is reported")
+		sdb.VerifReach("faulted")
+	} else {
+		sdb.VerifNoErr(err, "no fault, no error")
+		sdb.VerifAssert(len(got) == len(full), "complete result without fault")
+	}
+	sdb.VerifAssert(len(got) <= len(full), "never more rows than the fault-free result")
+	if len(got) <= len(full) {
+		for i := range got {
+			sdb.VerifAssert(vhWRowIs(got[i], full[i]), "delivered rows are a correct prefix")
+		}
+	}
+	sdb.VerifReach("end")
+}
